@@ -28,7 +28,8 @@ Print Assumptions C09_trace_accepted.
 
 (* at no time does a local server feature have more than one binding (sequential histories) *)
 (* The same for histories in which a teardown of peer p is overlapped by a bind / unbind /
-   subscribe / unsubscribe call of another peer q (Model/StackX.v [During]); the product machine
+   subscribe / unsubscribe call of another peer q (Model/StackX.v [During]) - or a delete call of p
+   is, the call of q arriving between the delete's filter and its store; the product machine
    the driver runs (C09_machine_accepted) contains these operations as well. *)
 Theorem C09_overlap_trace_accepted : forall xops,
   StackXSpec.xaccepted (StackXSpec.xjudge mon minit (snd (StackX.xrun init xops))) = true.
